@@ -721,17 +721,23 @@ func (fx *FuncCtx) execIf(st *State, x *ast.IfStmt) Flow {
 	if c.S != "false" {
 		s1 := st.clone()
 		s1.branch(c)
-		r1 := fx.execBlock(s1, x.Body.List)
-		fl.absorb(r1)
-		outs = append(outs, r1.normal)
+		pre1 := s1.clone()
+		r1, dead := fx.tryBranch(pre1, func() Flow { return fx.execBlock(s1, x.Body.List) })
+		if !dead {
+			fl.absorb(r1)
+			outs = append(outs, r1.normal)
+		}
 	}
 	if c.S != "true" {
 		s2 := st.clone()
 		s2.branch(Not(c))
 		if x.Else != nil {
-			r2 := fx.execStmt(s2, x.Else)
-			fl.absorb(r2)
-			outs = append(outs, r2.normal)
+			pre2 := s2.clone()
+			r2, dead := fx.tryBranch(pre2, func() Flow { return fx.execStmt(s2, x.Else) })
+			if !dead {
+				fl.absorb(r2)
+				outs = append(outs, r2.normal)
+			}
 		} else {
 			outs = append(outs, s2)
 		}
@@ -828,8 +834,12 @@ func (fx *FuncCtx) execCaseBody(st *State, body []ast.Stmt) caseResult {
 			fx.unsupportedf("fallthrough")
 		}
 	}
-	r := fx.execBlock(st, body)
+	preC := st.clone()
+	r, dead := fx.tryBranch(preC, func() Flow { return fx.execBlock(st, body) })
 	var cr caseResult
+	if dead {
+		return cr
+	}
 	cr.outs = append(cr.outs, r.normal)
 	for _, b := range r.breaks {
 		if b.label == "" {
@@ -849,4 +859,23 @@ func containsTerm(ts []Term, t Term) bool {
 		}
 	}
 	return false
+}
+
+// tryBranch executes f on a branch state; if the branch leaves the supported
+// subset but is infeasible under the current hypotheses, it is simply dead.
+func (fx *FuncCtx) tryBranch(st *State, f func() Flow) (fl Flow, dead bool) {
+	defer func() {
+		if r := recover(); r != nil {
+			u, ok := r.(unsupported)
+			if !ok {
+				panic(r)
+			}
+			if fx.infeasible(st) {
+				fl, dead = Flow{}, true
+				return
+			}
+			panic(u)
+		}
+	}()
+	return f(), false
 }
